@@ -139,7 +139,8 @@ def run(out, TABLE, EXTRA_FIELDS):
     if st == "unsat":
         st2, _m, dt2 = bmc.solve(lines, q, [], solver="cvc5", timeout_s=600)
         sample["cvc5"] = st2
-        out.append(_rec(name, "PASS" if st2 != "sat" else "INCONCLUSIVE", time.time() - t0, sample=sample, solver_s=dt + dt2))
+        out.append(_rec(name, "PASS" if st2 not in ("sat", "error") else "INCONCLUSIVE", time.time() - t0, sample=sample, solver_s=dt + dt2,
+                        notes=[] if st2 not in ("sat", "error") else ["z3 unsat but cvc5 %s" % st2]))
     elif st == "sat":
         # enumerate distinct (head, length) counterexamples: each is excluded and the query repeated
         fails, excl = [], []
